@@ -32,7 +32,7 @@ def dependency_units(pid):
     buf = ('PacketBuffer', lambda: c02.BufferContract())
     switch = ('write-switch', lambda: c01.WriteSwitch())
     table = {
-        'C01': [gendef],
+        'C01': [gendef, connect],
         'C07': [wlock, wpkt, ('read-frame', lambda: c01.ReadFrame()), ('read-segmentation', lambda: c01.Segmentation())],
         'C05': [order, wlock, wpkt, frame, ('read-frame', lambda: c01.ReadFrame()), ('Position.send', lambda: c04.PositionSend()), ('Position.any-word', lambda: c04.PositionAnyWord()),
                 ('ChunkSectionPos', lambda: c04.SectionPos()), ('BlockRecord', lambda: c04.BlockRecord()),
